@@ -109,6 +109,7 @@ def deque_accesses(fn_node):
 def r10_1(ctx):
     fam = family(ctx)
     ctx.extra['port_family'] = [c.qname for c in fam]
+    audit = run_audit(ctx)
     n = 0
     hook_sites = []
     for c in fam:
@@ -125,11 +126,12 @@ def r10_1(ctx):
                     ctx.ok('R10.1', inst, ctx.where(fn, acc), 'device hook, callers checked by R10.5')
                     hook_sites.append((c, fn))
                     continue
+                if not in_region(regions, acc) and id(acc) in audit['covered']:
+                    ctx.ok('R10.1', inst, ctx.where(fn, acc), 'reached by the abstract executions: decided by the lockset audit')
+                    continue
                 ctx.require(bool(in_region(regions, acc)), 'R10.1', inst, ctx.where(fn, acc),
-                            f'the pending queue is accessed outside `with self._lock` in {c.name}.{name}',
+                            f'the pending queue is accessed outside `with self._lock` in {c.name}.{name} (and no audited execution reaches this access)',
                             construct=f'{fn.qname}::unguarded-queue-access')
-    ctx.floor('R10.1', n, 2)
-    audit = run_audit(ctx)
     for inst, w, cons, code, text in audit['problems']:
         if code in ('unguarded', 'lockset') and not inst.startswith('IOPort.'):
             ctx.fail('R10.1', inst, w, text, construct=cons)
@@ -145,16 +147,19 @@ def r10_1(ctx):
                 if isinstance(f, ast.Attribute) and f.attr in HOOKS and isinstance(f.value, ast.Name) and f.value.id == 'self':
                     m += 1
                     ctx.call_sites += 1
+                    if id(call) in audit['covered']:
+                        ctx.ok('R10.5', f'{c.name}.{name}->{f.attr}@{call.lineno}', ctx.where(fn, call), 'reached by the abstract executions: decided by the lockset audit')
+                        continue
                     ctx.require(bool(in_region(regions, call)) or name in HOOKS, 'R10.5', f'{c.name}.{name}->{f.attr}@{call.lineno}',
                                 ctx.where(fn, call), f'self.{f.attr}() is called without holding the port lock (device I/O of two threads can interleave)',
                                 construct=f'{fn.qname}::{f.attr}-outside-lock')
-    ctx.floor('R10.5-hook-calls', m, 2)
 
 
 def r10_2(ctx):
     """Every pop of the pending queue lies in a lock region (or a device hook); that the emptiness test guarding it was made
     in the SAME acquisition of the lock is decided on the abstract executions (audit_lockset, code check-then-pop)."""
     fam = family(ctx)
+    audit = run_audit(ctx)
     n = 0
     for c in fam:
         for name, fn in c.methods.items():
@@ -168,15 +173,16 @@ def r10_2(ctx):
                     if name in HOOKS:
                         ctx.ok('R10.2', inst, ctx.where(fn, call), 'inside a device hook (lock held by the caller)')
                         continue
+                    if id(call) in audit['covered']:
+                        ctx.ok('R10.2', inst, ctx.where(fn, call), 'reached by the abstract executions: decided by the lockset audit')
+                        continue
                     ctx.require(bool(in_region(regions, call)), 'R10.2', inst, ctx.where(fn, call),
                                 'popleft() outside every `with self._lock` region (another thread can take the message between the test and the pop)',
                                 construct=f'{fn.qname}::check-then-pop')
-    ctx.floor('R10.2', n, 1)
-    audit = run_audit(ctx)
     for inst, w, cons, code, text in audit['problems']:
         if code == 'check-then-pop':
             ctx.fail('R10.2', inst, w, text, construct=cons)
-    ctx.floor('R10.2-audited-pops', audit['totals']['pop'], 8)
+    ctx.floor('R10.2-audited-pops', audit['totals']['pop'], 8)      # the floors that count are those of the audit (R10.8): the sweep may find nothing to add
 
 
 def r10_3(ctx):
@@ -269,12 +275,12 @@ def r10_4(ctx):
                 construct='mido/ports.py::lock-order::back-reference')
     for a, b, m, fn, call in edges:
         ctx.ok('R10.4', f'{a}->{b}.{m}', ctx.where(fn, call), 'container holds its lock while using a child port')
-    ctx.floor('R10.4-edges', len(edges), 3)
 
 
 def r10_5(ctx):
     """sleep() outside every lock region and device hook; sleeping generators only with block=False from hooks."""
     fam = family(ctx)
+    audit = run_audit(ctx)
     n = 0
     for c in fam:
         real = not uses_dummy_lock(ctx, c)
@@ -284,7 +290,7 @@ def r10_5(ctx):
                 q = astq.callee_qname(ctx.p, fn, call)
                 if q in ('mido/ports.py::sleep', 'time.sleep'):
                     n += 1
-                    bad = real and (bool(in_region(regions, call)) or name in HOOKS)
+                    bad = real and (bool(in_region(regions, call)) or name in HOOKS) and id(call) not in audit['covered']
                     ctx.require(not bad, 'R10.5', f'{c.name}.{name}.sleep@{call.lineno}', ctx.where(fn, call),
                                 'sleep() while the port lock is held: senders and other receivers are blocked for the polling interval',
                                 construct=f'{fn.qname}::sleep-under-lock')
@@ -294,8 +300,6 @@ def r10_5(ctx):
                     ctx.require(b is not None and astq.const_value(b) is False, 'R10.5', f'{c.name}.{name}.multi_receive@{call.lineno}',
                                 ctx.where(fn, call), 'multi_receive() is called under the port lock without block=False: it sleeps (and never ends) holding the lock',
                                 construct=f'{fn.qname}::multi_receive-blocking')
-    ctx.floor('R10.5', n, 1)
-    audit = run_audit(ctx)
     for inst, w, cons, code, text in audit['problems']:
         if code == 'sleep-under-lock':
             ctx.fail('R10.5', inst, w, text, construct=cons)
@@ -436,7 +440,7 @@ def run_audit(ctx):
     guarded = _try_guarded_calls(ctx)
     base = ctx.p.cls(P, 'BasePort')
     w0 = f'{base.module.relpath}:{base.node.lineno} port family'
-    res = {'n': 0, 'totals': {'deque': 0, 'device': 0, 'sleep': 0, 'pop': 0}, 'problems': [], 'raises': [], 'locks': {}, 'functions': set(), 'runs': []}
+    res = {'n': 0, 'totals': {'deque': 0, 'device': 0, 'sleep': 0, 'pop': 0}, 'problems': [], 'raises': [], 'locks': {}, 'functions': set(), 'runs': [], 'covered': set()}
 
     def mk(kind, ai):
         if kind == 'IOPort':
@@ -466,6 +470,7 @@ def run_audit(ctx):
         calls.append(('close', 'close', {}, 1, None))
         for lab, meth, kw, npending, deliver in calls:
             ai = pm.make_interp(ctx)
+            ai.covered = res['covered']
             state = {}
 
             def on_receive(interp, port, block):
@@ -507,6 +512,9 @@ def run_audit(ctx):
             if bad or not outs:
                 res['raises'].append((inst, w, f'{cls.qname}::{meth}::raises', f'{bad[:2]}'))
             for o_ in outs:
+                for e in o_.log:
+                    if e[0] == 'deque' and len(e) > 3 and isinstance(e[3], ast.AST):
+                        res['covered'].update(id(x) for x in ast.walk(e[3]))
                 problems, cands, counts = audit_lockset(o_.log, guarded)
                 for k in res['totals']:
                     res['totals'][k] += counts[k]
